@@ -146,7 +146,15 @@ func dataflowCase(c *Ctx, focus string) {
 		nested = true
 		c.Res.Probes["template-nested-map-program"]++
 	}
-	if !AdvOn {
+	if focus == "C03" && (c.Plan.Draw(24) == 0 || os.Getenv("VERIF_NESTED_AM") != "") {
+		// nested map calls, outer array / inner typed map (known finding KF-C03-2)
+		NestedAM = true
+		prog = templateNestedProg(c.Plan)
+		NestedAM = false
+		nested = true
+		c.Res.Probes["template-nested-array-of-maps-program"]++
+	}
+	if !AdvOn && !prog.ArrayOfMaps {
 		switch c.Plan.Draw(16) {
 		case 0, 1:
 			prog = templateDisabledProg(c.Plan)
@@ -193,6 +201,9 @@ func dataflowCase(c *Ctx, focus string) {
 		// the chunk outputs complete and in chunk order
 		cfg.FCfg.MaxChunks = 9 + c.Plan.Draw(5)
 		c.Res.Probes["many-chunks-cases"]++
+	}
+	if prog.ArrayOfMaps {
+		cfg.MaxSteps = 12000 // most of these runs never finish (KF-C03-2)
 	}
 	cfg.FCfg.BigInts = c.Plan.Draw(3) == 0
 	cfg.Flags = append(baseFlags(c.Plan), "--vdrmode=disable", "--strict=error")
@@ -323,6 +334,21 @@ func dataflowCase(c *Ctx, focus string) {
 		c.Res.Violations = append(c.Res.Violations, Violation{"SIM", "run-" + r.Class(),
 			"run did not terminate: " + lastLines(r.outBuf.String(), 8), r.Steps})
 	}
+	if prog.ArrayOfMaps {
+		// Known finding KF-C03-2: martian does not get the forks of this shape right
+		// (forks of later outer elements are not expanded when the first element's map
+		// has a single key; forks of different elements share one directory; the
+		// pipestance never finishes or fails).  Everything such a run shows is filed
+		// under that finding; every other run is judged as usual.
+		for i := range c.Res.Violations {
+			v := &c.Res.Violations[i]
+			if v.Property == "OBS" {
+				continue
+			}
+			v.Msg = "[" + v.Property + " " + v.Oracle + "] " + v.Msg
+			v.Property, v.Oracle = "C03", "nested-map-call-over-array-of-typed-maps"
+		}
+	}
 	if c.Keep || len(c.Res.Violations) > 0 || c.Res.Sample == nil {
 		c.Res.Sample = describeRun(r, true)
 	}
@@ -390,6 +416,10 @@ func c11Case(c *Ctx) {
 
 // AdvOn switches the dataflow case to adversarial typed-map keys.
 var AdvOn bool
+
+// NestedAM makes templateNestedProg add a pipeline map-called over an array of typed maps
+// (the inner call is mapped over the keys of each element).
+var NestedAM bool
 
 func init() {
 	Profiles["C11"] = c11Case
@@ -549,6 +579,20 @@ func templateNestedProg(plan *Tape) *Prog {
 		top.Outs = append(top.Outs, Field{"bykey", keyed})
 		top.Ret = append(top.Ret, Bind{"bykey", ref("ROW_K", "ys"), false})
 	}
+	var extraPipes []*PipelineDef
+	if NestedAM {
+		// an array of typed maps: the inner call is mapped over the keys of each element
+		rows := Ty{Base: "int", Dims: "am"}
+		p.Stages[0].Outs = append(p.Stages[0].Outs, Field{"rows", rows})
+		rowm := &PipelineDef{Name: "ROWM", Ins: []Field{{"xs", intT.MapOf()}, {"k", intT}}, Outs: []Field{{"ys", intT.MapOf()}}}
+		rowm.Calls = []*CallDef{{Callee: "WORK", Id: "WORK", Mapped: true, Binds: []Bind{{"x", self("xs"), true}, {"k", self("k"), false}}}}
+		rowm.Ret = []Bind{{"ys", ref("WORK", "y"), false}}
+		extraPipes = append(extraPipes, rowm)
+		top.Calls = append(top.Calls, &CallDef{Callee: "ROWM", Id: "ROWM", Mapped: true, Binds: []Bind{{"xs", ref("MAKE", "rows"), true}, {"k", lit(3), false}}})
+		top.Outs = append(top.Outs, Field{"byrow", rows})
+		top.Ret = append(top.Ret, Bind{"byrow", ref("ROWM", "ys"), false})
+		p.ArrayOfMaps = true
+	}
 	if plan.Draw(3) == 0 {
 		// the rows' second argument comes from another producer (which the interrupting
 		// profiles make slow): the inner calls depend on it as much as on MAKE
@@ -560,7 +604,7 @@ func templateNestedProg(plan *Tape) *Prog {
 			}
 		}
 	}
-	p.Pipelines = []*PipelineDef{row, top}
+	p.Pipelines = append(append([]*PipelineDef{row}, extraPipes...), top)
 	p.Top = &CallDef{Callee: "TOPX", Id: "TOPX", Binds: []Bind{{"n", lit(plan.Draw(10000)), false}}}
 	return p
 }
